@@ -258,11 +258,12 @@ Definition gc (st : state) (mss : list (list Z)) : option (state * Z * Z) :=
 (** sexp_heap_total_size, gc.c:41-46 *)
 Definition total_size (st : state) : Z := fold_right (fun h a => hsize h + a) 0 (heaps st).
 
-(** sexp_grow_heap, gc.c:858-885: new_size = ceil(FACTOR * align(max(size of the LAST heap, size)));
-    [size] is already aligned (sexp_alloc aligned it); the new heap goes to the end of the chain. *)
+(** sexp_grow_heap, gc.c:858-885: new_size = [grow_formula cur_size size], the expression TRANSLATED from the
+    source by gen/c10_consts.py (pinned: ceil(FACTOR * align(max(size of the LAST heap, size)))); [cur_size] is
+    the size of the last heap of the chain, [size] is already aligned (sexp_alloc aligned it); the new heap goes
+    to the end of the chain. *)
 Definition grow_size (st : state) (size : Z) : Z :=
-  let cur := hsize (last (heaps st) (make_heap 0)) in
-  (factor_num * Z.max cur size + factor_den - 1) / factor_den.
+  grow_formula (hsize (last (heaps st) (make_heap 0))) size.
 
 Definition grow (st : state) (size : Z) : state :=
   State (heaps st ++ [make_heap (grow_size st size)]) (max_size st).
